@@ -29,10 +29,12 @@ CONSTANTS
   Vals,         \* row versions
   MaxCalls,     \* calls per reader
   MaxWrites, MaxFaults, MaxExpires, MaxDbErrs,
-  Barrier, CacheDbErr, QueryOnErr
+  Barrier, CacheDbErr, QueryOnErr,
+  TwoStepNF     \* the not-found placeholder is written in two commands (SETNX, then EXPIRE) instead of SET NX EX
 
 Absent == -1
 PH     == -1
+PHP    == -2      \* the placeholder without a TTL: what a SETNX leaves until its EXPIRE has been applied
 None   == -9
 
 Res(r, v) == [r |-> r, v |-> v]
@@ -123,7 +125,7 @@ GetCache(r) ==
        /\ Same(gotErr)
        /\ IF rv = None THEN pc' = [pc EXCEPT ![r] = "query"] /\ Same(lres)
           ELSE /\ pc' = [pc EXCEPT ![r] = "finish"]
-               /\ lres' = [lres EXCEPT ![r] = IF rv = PH THEN Res("nf", 0) ELSE Res("ok", rv)]
+               /\ lres' = [lres EXCEPT ![r] = IF rv \in {PH, PHP} THEN Res("nf", 0) ELSE Res("ok", rv)]
   /\ Same(<<db, rv, down, owed, cur, flights, nflights, myfl, lval, ret, wpc, wnew, ok, queried, truthAt, owedAt, ovl, cnt>>)
 
 \* the query function returns (the harness may make it fail)
@@ -146,11 +148,19 @@ Query(r) ==
   /\ Same(<<db, rv, down, owed, cur, flights, nflights, myfl, ret, wpc, wnew, ok, gotErr, truthAt, owedAt, ovl>>)
 
 \* cacheVal: SETEX (overwrites); setCacheWithNotFound: SET NX EX; errors are only logged
+\* (TwoStepNF: SETNX leaves the placeholder without a TTL, the EXPIRE that follows gives it one - a store that
+\* fails between the two leaves a persistent key)
 SetCache(r) ==
   /\ pc[r] \in {"set", "setnf"}
   /\ rv' = IF down THEN rv
            ELSE IF pc[r] = "set" THEN lval[r]
-           ELSE IF rv = None THEN PH ELSE rv
+           ELSE IF rv = None THEN (IF TwoStepNF THEN PHP ELSE PH) ELSE rv
+  /\ pc' = [pc EXCEPT ![r] = IF TwoStepNF /\ pc[r] = "setnf" /\ ~down /\ rv = None THEN "expire" ELSE "finish"]
+  /\ Same(<<db, down, owed, cur, flights, nflights, myfl, lres, lval, ret, wpc, wnew, ok, queried, gotErr, truthAt, owedAt, ovl, cnt>>)
+
+ExpireCmd(r) ==
+  /\ pc[r] = "expire"
+  /\ rv' = IF ~down /\ rv = PHP THEN PH ELSE rv
   /\ pc' = [pc EXCEPT ![r] = "finish"]
   /\ Same(<<db, down, owed, cur, flights, nflights, myfl, lres, lval, ret, wpc, wnew, ok, queried, gotErr, truthAt, owedAt, ovl, cnt>>)
 
@@ -205,7 +215,7 @@ Cleaner ==
   /\ Same(<<db, down, cur, flights, nflights, pc, myfl, lres, lval, ret, wpc, wnew, ok, queried, gotErr, truthAt, owedAt, ovl, cnt>>)
 
 Expire ==
-  /\ rv # None /\ cnt.expires < MaxExpires
+  /\ rv \notin {None, PHP} /\ cnt.expires < MaxExpires
   /\ rv' = None /\ owed' = FALSE
   /\ cnt' = [cnt EXCEPT !.expires = @ + 1]
   /\ Same(<<db, down, cur, flights, nflights, pc, myfl, lres, lval, ret, wpc, wnew, ok, queried, gotErr, truthAt, owedAt, ovl>>)
@@ -217,7 +227,7 @@ Fault ==
   /\ Same(<<db, rv, owed, cur, flights, nflights, pc, myfl, lres, lval, ret, wpc, wnew, ok, queried, gotErr, truthAt, owedAt, ovl>>)
 
 Next ==
-  \/ \E r \in Readers : Start(r) \/ Enter(r) \/ GetCache(r) \/ Query(r) \/ SetCache(r) \/ Finish(r) \/ Wake(r)
+  \/ \E r \in Readers : Start(r) \/ Enter(r) \/ GetCache(r) \/ Query(r) \/ SetCache(r) \/ ExpireCmd(r) \/ Finish(r) \/ Wake(r)
   \/ WStart \/ WDb \/ WDel \/ Cleaner \/ Expire \/ Fault
 
 Spec == Init /\ [][Next]_vars
@@ -240,7 +250,9 @@ ServedFromCache == \A r \in Readers : pc[r] = "query" /\ ~gotErr[r] /\ ~ovl /\ B
 NonOverlapTrue == \A r \in Readers :
   Returned(r) /\ ~ovl /\ ~owedAt[r] => ret[r] \in {truthAt[r], Res("dberr", 0), Res("cerr", 0)}
 AtRest == ~AnyInCall /\ wpc = "idle"
-Reflects == rv = None \/ rv = (IF db = Absent THEN PH ELSE db)
+Reflects == rv = None \/ rv = (IF db = Absent THEN PH ELSE db) \/ (rv = PHP /\ db = Absent)
+\* every entry carries a finite TTL: once the call that wrote it is over, no entry is without one
+FiniteTTL == ~AnyInCall => rv # PHP
 NonOverlapCoherent == AtRest /\ ~ovl /\ ~owed => Reflects
 \* ... and without it (does not hold: the cache-aside race)
 CoherentAlways == AtRest /\ ~owed => Reflects
